@@ -8,7 +8,7 @@ package main
 //	String -> parse: every component type family (hex conventions, decimal conventions, generic,
 //	  other-typed at the type-number width boundaries) x every value length of a length set (all of
 //	  0..72, then both sides of every power of two / TLV length boundary up to 4097; thorough: all of
-//	  0..1100 and boundaries up to 16385) x every fill pattern (bytes printed verbatim, bytes
+//	  0..300 and boundaries up to 65537) x every fill pattern (bytes printed verbatim, bytes
 //	  escaped, bytes that are URI-special, position-dependent bytes): component and name round trip;
 //	parser input: every typed prefix the printer can produce (discovered from Component.String over
 //	  ALL types 1..65535, plus numeric and unknown prefixes) x every repeat count of a unit string
@@ -156,7 +156,7 @@ type lengthCase struct {
 func uriLengthPhase(col *collector, us *uriStats, ls *lengthStats, thorough bool, deadline time.Time) (int64, bool) {
 	lens, big := lengthSet(72, 256), []int{511, 512, 513, 999, 1000, 1001, 1023, 1024, 1025, 2047, 2048, 2049, 4095, 4096, 4097}
 	if thorough {
-		lens, big = lengthSet(1100, 2048), []int{4095, 4096, 4097, 8191, 8192, 8193, 16383, 16384, 16385, 65535, 65536, 65537}
+		lens, big = lengthSet(300, 2048), []int{4095, 4096, 4097, 8191, 8192, 8193, 16383, 16384, 16385, 65535, 65536, 65537}
 	}
 	var cases []lengthCase
 	for _, l := range lens {
@@ -172,8 +172,8 @@ func uriLengthPhase(col *collector, us *uriStats, ls *lengthStats, thorough bool
 	for _, l := range big {
 		for _, t := range bigLengthTypes {
 			for _, fi := range bigLengthFills {
-				if l > 20000 && fi != 3 {
-					continue
+				if l > 20000 && (fi != 3 || t != 1 && t != 8) {
+					continue // the 64 KiB values: one hex-convention and the generic type, letters only
 				}
 				cases = append(cases, lengthCase{l, t, fills[fi]})
 			}
